@@ -5,7 +5,7 @@ import os
 import re
 import collections
 from ..core import Result
-from ..pm import AnalysisError, unparse
+from ..pm import AnalysisError, Missing, unparse
 from ..match import Code
 from ..rat import (Ev, Rat, Sym, Poly, fn_eval, rat_eq, Inconclusive, ONE,
                    ZERO, const_of)
@@ -97,7 +97,9 @@ def _formula_funcs(P):
                                          for v in n.values):
             table = n
     if table is None:
-        raise AnalysisError('formula_map not found')
+        raise Missing('FORMULA-DISPATCH', init, 'formula table',
+                      'MaterialFile.__init__ does not build the table that maps '
+                      'the formula named in the data file to its evaluator')
     out = {}
     for k, v in zip(table.keys, table.values):
         f = c.methods.get(v.attr)
